@@ -82,8 +82,16 @@ def replay_one(args):
     obs = []
     for i, st in enumerate(h["steps"]):
         hdr = os.path.join(d, "in%d.h" % i)
+        names = sorted(st["h"])
+        # a third of the histories declares every other function in a header that the input header includes
+        # (a static function is wrapped wherever it is declared)
+        moved = names[1::2] if hid % 3 == 2 else []
+        if moved:
+            with open(os.path.join(d, "inc%d.h" % i), "w") as f:
+                f.write("".join(decl(n, kinds[n], hid + i) + "\n" for n in moved))
         with open(hdr, "w") as f:
-            f.write("".join(decl(n, kinds[n], hid + i) + "\n" for n in sorted(st["h"])) or "typedef int nothing_here;\n")
+            f.write(('#include "inc%d.h"\n' % i if moved else "") +
+                    ("".join(decl(n, kinds[n], hid + i) + "\n" for n in names if n not in moved) or "typedef int nothing_here;\n"))
         out = os.path.join(d, "out%d.rs" % i)
         cmd = [C.BINDGEN, hdr, "--experimental", "--wrap-static-fns", "--wrap-static-fns-path", wrap,
                "--wrap-static-fns-suffix", SUFFIX, "--formatter", "none", "-o", out]
